@@ -23,26 +23,34 @@ SLICES = [
                R("set:size()", r"later_txids\.size\(\)", "later_txids.size", True),
                R("stub:IsTopoSortedPackage", r"IsTopoSortedPackage\(txns, later_txids\)", "IsTopoSortedPackage_stub(txns, &later_txids)", True), R("stub:IsConsistentPackage", r"IsConsistentPackage\(txns\)", "IsConsistentPackage_stub(txns)", True),
                invalid_rule(r"state\.", "PackageValidationResult", "PackageState_Invalid")]},
+    {"name": "IsChildWithParents", "kind": "func", "file": PC, "head": r"bool IsChildWithParents\(const Package& package\)",
+     "rules": [R("head", r"bool IsChildWithParents\(const Package& package\)", "bool IsChildWithParents(const PackageView* package)"),
+               R("drop:assert(no null transaction)", r"assert\(std::all_of\(package\.cbegin\(\), package\.cend\(\), \[\]\(const auto& tx\)\{return tx != nullptr;\}\)\);", "", True),
+               R("member:package.size()", r"package\.size\(\)", "package->n", True),
+               R("view:the child is the last transaction", r"const auto& child = package\.back\(\);", "const size_t child = package->n - 1;", True),
+               R("ghost:set of the txids the child's inputs spend (std::transform + inserter)", r"std::unordered_set<Txid, SaltedTxidHasher> input_txids;\s*std::transform\(child->vin\.cbegin\(\), child->vin\.cend\(\),\s*std::inserter\(input_txids, input_txids\.end\(\)\),\s*\[\]\(const auto& input\) \{ return input\.prevout\.hash; \}\);", "InputTxidSet input_txids = InputTxidSet_of(package, child);", True),
+               R("ghost:all_of over every transaction but the last: its txid is in the set", r"std::all_of\(package\.cbegin\(\), package\.cend\(\) - 1,\s*\[&input_txids\]\(const auto& ptx\) \{ return input_txids\.contains\(ptx->GetHash\(\)\); \}\)", "AllTxidsBelowAreIn(package, package->n - 1, &input_txids)", True)]},
 ]
 for _s in SLICES:
-    _s["guard"] = "C29_CONSTS" if _s["kind"] == "const" else {"IsTopoSortedPackage": "C29_F_TOPO"}.get(_s["name"], "C29_F_WF")
+    _s["guard"] = "C29_CONSTS" if _s["kind"] == "const" else {"IsTopoSortedPackage": "C29_F_TOPO", "IsChildWithParents": "C29_F_CWP"}.get(_s["name"], "C29_F_WF")
 RH = {"SPEC_R_" + r.replace("-", "_"): reason_hash(r) for r in ("package-too-many-transactions", "package-too-large", "package-contains-duplicates", "package-not-sorted", "conflict-in-package")}
 PLAN = {
     "id": "C29", "level": "proof", "slices": SLICES, "spec": "spec.c", "default_solver": ["cadical", "z3"], "cc_defines": [f"{k}={v:#x}u" for k, v in RH.items()],
     "harnesses": [
         {"name": "h_IsWellFormedPackage", "enforce": "IsWellFormedPackage", "defines": ["C29_TU_WF"], "twins": [{"define": "TWIN_26", "expect": "postcondition"}]},
+        {"name": "h_IsChildWithParents", "enforce": "IsChildWithParents", "defines": ["C29_TU_CWP"], "twins": [{"define": "TWIN_CWP", "expect": "postcondition"}]},
         {"name": "h_IsTopoSortedPackage", "enforce": "IsTopoSortedPackage", "loop_contracts": True, "defines": ["C29_TU_TOPO"], "twins": [{"define": "TWIN_SELF", "expect": "postcondition|loop_invariant"}]},
     ],
     "native": {"src": "replay.cpp", "c_src": "native_slices.c", "repo_sources": ["src/policy/packages.cpp"], "diff_n_quick": 5000, "diff_n_thorough": 150000,
                "libs": ["libbitcoin_common.a", "libbitcoin_consensus.a", "libbitcoin_util.a", "libbitcoin_clientversion.a", "libbitcoin_crypto.a", "/repo/_build/src/secp256k1/lib/libsecp256k1.a"]},
-    "not_covered": ["IsConsistentPackage and IsChildWithParents (bodies made of std::transform / std::inserter / std::all_of with lambdas over unordered sets: rendering them would be a rewrite, not an extraction) -- their verdicts are inputs here",
+    "not_covered": ["IsConsistentPackage (std::transform / std::inserter with lambdas over an unordered set: rendering it would be a rewrite, not an extraction) -- its verdict is an input here; IsChildWithParents is extracted only in the weak sense that each of its two STL expressions is matched verbatim and replaced by a ghost (set of the child's input txids; 'every earlier txid is in it'), so the contract pins the text and the two-transaction minimum, and any other shape of the body falls back to the native oracle on the real function",
                     "everything after the well-formedness gate: AcceptPackage, the 'no dangling children' and result-reporting clauses of the statement (mempool histories)"],
     "assumptions": ["the sum of transaction weights (std::accumulate) and the set of the package's txids (std::transform) are ghost values: total weight >= 0, number of distinct txids <= package size",
                     "IsTopoSortedPackage: under its documented precondition (later_txids = the txids of txns, all distinct) the set is the view 'txids of txns[first..]': contains(h) holds iff h is the txid of a package transaction at index >= first (a ghost parent index per input), erase(txid of tx i) requires i == first"],
     "manifest": {
         "category": "proof",
         "text": "partial (the well-formedness gate): IsWellFormedPackage accepts iff the package has at most 25 transactions, (one transaction or) total weight at most 404,000, no duplicate txids, is topologically sorted and free of conflicts -- checked in that order, each failure with its reason (package-too-many-transactions, package-too-large, package-contains-duplicates, package-not-sorted, conflict-in-package); "
-                "IsTopoSortedPackage returns false exactly when some input of some transaction spends a package transaction placed at the same or a later position.",
+                "IsChildWithParents requires at least two transactions and every transaction but the last to be spent by the last (STL expressions pinned verbatim); IsTopoSortedPackage returns false exactly when some input of some transaction spends a package transaction placed at the same or a later position.",
         "note": "Not covered: IsConsistentPackage / IsChildWithParents bodies, AcceptPackage and the mempool-state clauses.",
         "technique": "CBMC function contracts (loop contracts with a pinned input) on extracted policy/packages.cpp functions, set operations as ghost views",
     },
